@@ -39,7 +39,7 @@ NODATA = -3000
 
 
 # ----------------------------------------------------------------------------- operations
-def make_cube(rng, nt=12, ny=4, nx=5, kind="int16"):
+def make_cube(rng, nt=12, ny=4, nx=4, kind="int16"):  # square grid: a positional y/x mix-up would not even raise
     import pandas as pd
     import xarray as xr
 
@@ -96,7 +96,8 @@ def op_table(rng, da):
     return ops
 
 
-ORDERS = {"time_first": ("time", "y", "x"), "time_last": ("y", "x", "time"), "time_middle": ("y", "time", "x")}
+ORDERS = {"time_first": ("time", "y", "x"), "time_last": ("y", "x", "time"), "time_middle": ("y", "time", "x"),
+          "time_first_xy": ("time", "x", "y"), "time_last_xy": ("x", "y", "time")}  # x before y: auxiliary rasters must be matched by name
 ZONAL_ONLY_TIME_FIRST = {"zonal_mean", "zonal_mean_lazy_zones"}
 
 
@@ -200,6 +201,9 @@ def shard_sweep(spec, R):
             va, vb = as_vars(ref), as_vars(eager[o])
             for k in va:
                 canon = [dd for dd in ("y", "x", "time", "newtime", "zones", "stat") if dd in va[k].dims]
+                if set(va[k].dims) != set(vb[k].dims):
+                    R.violation(f"C12:layout:{name}", f"{name}: dims {va[k].dims} vs {vb[k].dims} for order {o}", {"op": name, "order": o})
+                    continue
                 if set(va[k].dims) != set(vb[k].dims) or not np.array_equal(va[k].transpose(*canon).values, vb[k].transpose(*canon).values, equal_nan=va[k].dtype.kind == "f"):
                     R.violation(f"C12:layout:{name}", f"{name}: result depends on the dimension order ({orders[0]} vs {o}), variable {k!r}", {"op": name, "order": o})
         cfgs = list(itertools.product(orders, chunkings(da.sizes["y"], da.sizes["x"]).items(), spec["schedulers"]))
